@@ -6,7 +6,7 @@ for lf in sys.argv[1:]:
     log = open(lf, errors='replace').read()
     for b in re.split(r'^== ', log, flags=re.M)[1:]:
         hd = b.splitlines()[0].strip()
-        if not re.match(r'^S\d/[A-Z]$', hd): continue
+        if not re.match(r'^S\d+/[A-Z]$', hd): continue
         area, x = hd.split('/')
         if 'SEED CONFIRMED' not in b: print(hd, 'NOT CONFIRMED - skipped'); continue
         sd = '/tmp/seed-%s/%s' % (area, x); dst = '/verif/seeded/suite/%s/%s' % (area, x)
